@@ -86,7 +86,7 @@ def cases(draw, tier):
         kind = draw(st.sampled_from(["set", "set", "set", "set_array", "set_array", "set_dict", "set_ref", "copy", "copy", "move", "move", "assign", "assign", "assign", "write_src", "grow", "read_arrays", "refarr", "refarr"]))
         op = {"op": kind, "o": draw(st.integers(0, 50)), "i": draw(st.integers(0, 1000)), "j": draw(st.integers(0, 1000)), "w": draw(assign.op_specs)}
         if kind == "copy":
-            op["dest"] = draw(st.sampled_from(["default", "same", "B", "C", "Cctx"]))
+            op["dest"] = draw(st.sampled_from(["default", "default", "same", "B", "C", "Cctx", "contradictory"]))
         elif kind == "move":
             op["dest"] = draw(st.sampled_from(["B", "C", "Cctx", "A"]))
             op["nested"] = draw(st.integers(0, 2)) == 0
@@ -374,6 +374,18 @@ def run_case(case):
                 kwargs["_buffer"] = Cbuf
             elif dest == "Cctx":
                 kwargs["_context"] = ctxC
+            elif dest == "contradictory":
+                # a context together with a buffer of ANOTHER context: cannot be honoured, must be refused (nothing changes:
+                # the invariant after the step re-reads every object)
+                other_buf = Bbuf if Bbuf.context is not ctxC else Cbuf
+                c = sut(lambda: o.copy(_context=ctxC, _buffer=other_buf))
+                if not is_raised(c):
+                    return fail("contradictory_copy_accepted", f"{step}: copy(_context=X, _buffer=<buffer of another context>) returned an object in {'the buffer' if c._buffer is other_buf else 'another place'}", "", labels)
+                labels.add("op:copy_contradictory_refused")
+                r = check_all(step)
+                if r:
+                    return r
+                continue
             c = sut(lambda: o.copy(**kwargs))
             if is_raised(c):
                 return fail("copy_raised", f"{step} dest {dest}: {c}", dest + "|" + r_key(c), labels)
@@ -385,7 +397,8 @@ def run_case(case):
                 return fail("copy_wrong_context", f"{step}: copy() left the object's context", dest, labels)
             if c._xobject._offset == o._xobject._offset and c._buffer is o._buffer:
                 return fail("copy_same_storage", f"{step}: the copy occupies the original's bytes", dest, labels)
-            entries.append({"obj": c, "hn": n, "model": copy_model(n.h, m, c._buffer is o._buffer), "movable": True})
+            # references are shared only when the caller asked for the original's own buffer; a copy without target is independent
+            entries.append({"obj": c, "hn": n, "model": copy_model(n.h, m, "_buffer" in kwargs and kwargs["_buffer"] is o._buffer), "movable": True})
             labels.add("op:copy")
             labels.add("op:copy_" + dest)
             did_structural = True
